@@ -4,5 +4,30 @@ CONSTANTS Depth
 DimOf(d) == d + 1        \* data set 1 has 2 features, data set 2 has 3 features
 CanonOf(p) == IF p = 3 THEN 1 ELSE p      \* setting 3 = setting 1 with verbose=True
 BoundedDepth == TLCGet("level") <= Depth
+
+(***************************************************************************)
+(* REFINEMENT: projected on any one object, every step of this machine is  *)
+(* a step of the per-object machine ObjLife (the abstraction with opaque   *)
+(* terms that the repository's own test-suite executions are validated     *)
+(* against).  Terms are mapped to integers (digests are opaque there).     *)
+(***************************************************************************)
+OL == INSTANCE ObjLife WITH NoThr <- 0
+DigOf(m) == IF m = NoModel THEN 0 ELSE 1 + 10 * m[1] + m[2]
+ThrCode(t) == CASE t = NoThr -> 0
+                [] t[1] = "fit" -> 1000 + 10 * t[2] + t[3]
+                [] t[1] = "set" -> 2000 + t[2]
+                [] OTHER -> 3000 + 1000 * t[2] + 100 * t[3] + 10 * t[4] + t[5] + 10000 * t[6]
+Proj(x) == [fitted |-> x.model # NoModel, dig |-> DigOf(x.model), hasthr |-> x.thr # NoThr, thr |-> ThrCode(x.thr),
+            nfeat |-> IF x.nfeat = 0 THEN -1 ELSE x.nfeat, par |-> x.params]
+ObjStep(o) ==
+  LET a == Proj(objs[o])  b == Proj(objs'[o])  k == last'[1] IN
+  IF Len(last') >= 2 /\ k \in {"Fit", "FitTransform"} /\ last'[2] = o
+  THEN OL!Fit(a, b, Dim(last'[3]), TRUE, HasThreshold)
+  ELSE IF k = "SetThreshold" /\ last'[2] = o THEN OL!SetThreshold(a, b, b.thr, FALSE)
+  ELSE IF k = "Calibrate" /\ last'[2] = o THEN OL!Calibrate(a, b, FALSE)
+  ELSE IF k = "SetParams" /\ last'[2] = o THEN OL!Env(a, b)          \* the owner of the object changes its parameters
+  ELSE IF k = "NotFitted" /\ last'[2] = o THEN OL!Query(a, b, TRUE) /\ OL!Unfitted(a)
+  ELSE OL!Silent(a, b)                                                  \* queries, model selection, other objects' steps
+RefinesObjLife == [][\A o \in Live : ObjStep(o)]_vars
 View == <<objs, handles>>
 =============================================================================
